@@ -92,3 +92,65 @@ Example nv_setup :
   /\ let s := run true 48 (repeat LP 23 ++ [LDC]) (init0 fin_recs) in
      done s = [w_r2; w_r1; w_r2] /\ match_recs (done s) (file (finish s)) = true.
 Proof. vm_compute. repeat split; reflexivity. Qed.
+
+(* exec: the task replaces its image between two hook calls (LX); the new image sets itself up (REC_START of its
+   own first buffer, flag, TASK_START) and goes on recording; the recorder's flush_old_shmem - first announced
+   buffer of the tid - takes the OLD image's buffer, so the one data file is old records ++ new records.
+   (1) a complete run; (2) killed between the new image's REC_START and its TASK_START: both announced buffers are
+   flushed at the end, the old one first, the new one is still empty *)
+Example nv_exec :
+  let sched := repeat LP 21 ++ [LR; LX] ++ repeat LP 3 ++ [LR; LR; LR; LW] ++ repeat LP 30 in
+  let s := run true 48 sched (init fin_recs) in
+  pc s = PIdle /\ todo s = [] /\ done s = fin_recs /\ length (bufs s) = 4 /\ curr s = Some 2
+  /\ length (file s) = 40 /\ shl s = [1; 2] /\ chan s = [MTask 1]
+  /\ match_recs fin_recs (file (finish s)) = true /\ length (file (finish s)) = 88.
+Proof. vm_compute. repeat split; reflexivity. Qed.
+Example nv_exec_killed_in_setup :
+  let s := run true 48 (repeat LP 21 ++ [LX; LP; LP]) (init fin_recs) in
+  (exists b o, pc s = PXTask b o) /\ chan s = [MStart 0; MEnd 0; MStart 1; MStart 2]
+  /\ shl (drain s) = [1; 2] /\ done s = [w_r2; w_r1; w_r2]
+  /\ match_recs (done s) (file (finish s)) = true /\ length (file (finish s)) = 56.
+Proof. vm_compute. repeat split; try reflexivity. eexists; eexists; reflexivity. Qed.
+
+(* what has been stored completely stays stored: `done` only grows *)
+Lemma done_step single cap l s : exists d, done (step single cap l s) = done s ++ d.
+Proof.
+  destruct l; cbn [step].
+  - unfold pstep.
+    repeat match goal with |- context [match ?x with _ => _ end] => destruct x end;
+      cbn [done with_pc with_bufs with_curr with_chan with_shl with_wl with_file with_todo with_done on_cur];
+      first [exists []; rewrite app_nil_r; reflexivity | eexists; reflexivity].
+  - destruct (rstep_frame s) as [_ [_ [F _]]]. exists []. rewrite F, app_nil_r. reflexivity.
+  - exists []. rewrite app_nil_r. unfold wstep. destruct (wl s); reflexivity.
+  - unfold pstep_closed, pstep.
+    repeat match goal with |- context [match ?x with _ => _ end] => destruct x end;
+      cbn [done with_pc with_bufs with_curr with_chan with_shl with_wl with_file with_todo with_done on_cur];
+      first [exists []; rewrite app_nil_r; reflexivity | eexists; reflexivity].
+  - exists []. rewrite app_nil_r. unfold dstep, pend_thread. destruct (pc s); try reflexivity. destruct (curr s); reflexivity.
+  - exists []. rewrite app_nil_r. unfold dstep. destruct (pc s); reflexivity.
+  - exists []. rewrite app_nil_r. unfold xstep. destruct (pc s); try reflexivity. destruct (curr s); reflexivity.
+Qed.
+Lemma done_run single cap sched : forall s, exists d, done (run single cap sched s) = done s ++ d.
+Proof.
+  induction sched as [|l r IH]; intro s; cbn.
+  - exists []. rewrite app_nil_r. reflexivity.
+  - destruct (done_step single cap l s) as [d1 H1]. destruct (IH (step single cap l s)) as [d2 H2].
+    exists (d1 ++ d2). unfold run in H2. rewrite H2, H1, app_assoc. reflexivity.
+Qed.
+
+(* exec: the task's one data file is what the old image stored followed by what the new image stored *)
+Theorem exec_old_then_new setup cap recs before after :
+  let s1 := run true cap before (start setup recs) in
+  let s := run true cap (before ++ [LX] ++ after) (start setup recs) in
+  exists new, done s = done s1 ++ new
+              /\ match_recs (done s1 ++ new) (file (finish s)) = true
+              /\ exists rest, recs = done s1 ++ new ++ rest.
+Proof.
+  intros s1 s.
+  assert (Hs : s = run true cap ([LX] ++ after) s1).
+  { unfold s, s1, run. rewrite fold_left_app. reflexivity. }
+  destruct (done_run true cap ([LX] ++ after) s1) as [new Hn]. rewrite <- Hs in Hn.
+  destruct (prefix_fixed setup cap recs (before ++ [LX] ++ after)) as [Hm [[rest Hr] _]]. fold s in Hm, Hr.
+  exists new. split; [exact Hn|]. rewrite <- Hn. split; [exact Hm|]. exists rest.
+  rewrite Hn in Hr. rewrite <- app_assoc in Hr. exact Hr.
+Qed.
